@@ -739,6 +739,7 @@ func init() {
 			e.emitAdd(f, tx.Momentum)
 			if err == nil {
 				c.Hit("note-fork-sibling-insert-returned-nil")
+				c.Fail("mverify: a momentum extending frontier-1 (height %d, a sibling of the frontier) was accepted by AddMomentumTransaction (nil error, insert event broadcast) although it does not extend the frontier", tx.Momentum.Height)
 			} else {
 				c.Hit("note-fork-sibling-insert-returned-error")
 			}
